@@ -82,7 +82,6 @@ class Knobs:
             self.n_handlers = (7, 11)
             self.n_mws = (0, 2)
             self.n_types = (3, 6)
-            self.max_depth = 4
 
 
 def rint(rng, lohi):
